@@ -92,6 +92,10 @@ func valueOf(style string, j int) string {
 		return []string{"v", "=v", "k=v", "", "v="}[j%5]
 	case "long":
 		return fmt.Sprintf("%d-%s", j, longTail)
+	case "nonnfc": // valid UTF-8 that a Unicode normaliser would rewrite
+		return []string{"cafe\u0301", "caf\u00e9", "\u2126", "\u03a9", "\u1100\u1161", "\uac00"}[j%6] + fmt.Sprint(j/6)
+	case "prefix300": // neighbouring values share more than 255 leading bytes
+		return strings.Repeat("p/", 150) + fmt.Sprint(j)
 	default:
 		return fmt.Sprintf("%d", j)
 	}
@@ -162,7 +166,7 @@ func (d *DataSpec) Materialize() []map[string]string {
 // longer than any small-input fast path a hash implementation might have (xxhash switches at 32 bytes)
 const longTail = "://example.org/a/rather/long/value/that/exceeds/sixty-four/bytes/in/total/0123456789"
 
-var identNames = []string{"a", "b", "c", "country", "x1", "Tag", "k_2", "z", "col9", "Q", "count", "ab"}
+var identNames = []string{"a", "b", "c", "country", "x1", "Tag", "k_2", "z", "col9", "Q", "count", "ab", "or", "not", "and"}
 var oddNames = []string{"", " ", "a b", "ü", "\xff\x00x"[0:1], "a=b", "\"", "0col", "a,b"}
 
 // genDataSpecUTF8 is genDataSpec restricted to identifier column names and valid UTF-8 values.
@@ -213,7 +217,7 @@ func genDataSpecN(r *Rng, n int, identOnly bool) *DataSpec {
 		if r.Chance(1, 3) {
 			c.Missing = Pick(r, []int{5, 30, 70, 100})
 		}
-		c.Style = Pick(r, []string{"ascii", "ascii", "ascii", "empty", "utf8", "binary", "nulval", "quote", "long", "nulprefix"})
+		c.Style = Pick(r, []string{"ascii", "ascii", "ascii", "empty", "utf8", "binary", "nulval", "quote", "long", "nulprefix", "nonnfc", "prefix300"})
 		d.Cols = append(d.Cols, c)
 	}
 	if r.Chance(1, 4) {
